@@ -96,6 +96,9 @@ func (r *Reader) StrLen() (int, error) {
 	if n < 0 {
 		return 0, errors.Errorf("size %d is invalid", n)
 	}
+	if n > maxStringSize {
+		return 0, errors.Errorf("string size %d is too big, maximum is %d (preventing possible OOM)", n, maxStringSize)
+	}
 
 	return n, nil
 }
@@ -277,6 +280,12 @@ func (r *Reader) Bool() (bool, error) {
 }
 
 const defaultReaderSize = 1024 * 128 // 128kb
+
+// maxStringSize is the maximum length of a single string value or protocol
+// string accepted from the wire, same as DEFAULT_MAX_STRING_SIZE of
+// ClickHouse (1 GiB). Buffers are allocated from the announced length before
+// the data is read.
+const maxStringSize = 1 << 30
 
 // NewReader initializes new Reader from provided io.Reader.
 func NewReader(r io.Reader) *Reader {
